@@ -7,6 +7,18 @@ import time
 from concurrent.futures import ThreadPoolExecutor
 
 
+_ENV_KNOWN = {"TZ", "ZONEINFO", "TMPDIR", "HOME", "PATH", "PWD", "USER", "LOGNAME", "HOSTNAME", "LANG", "LC_ALL", "TERM", "SHELL",
+              "HTTP_PROXY", "HTTPS_PROXY", "NO_PROXY", "ALL_PROXY", "http_proxy", "https_proxy", "no_proxy", "all_proxy", "REQUEST_METHOD",
+              "SSL_CERT_FILE", "SSL_CERT_DIR", "LOCALDOMAIN", "RES_OPTIONS", "HOSTALIASES", "RESOLV_HOST_CONF", "SYSTEMROOT", "NODE_OPTIONS",
+              "XDG_CONFIG_HOME", "XDG_CACHE_HOME", "XDG_DATA_HOME", "XDG_RUNTIME_DIR", "COLUMNS", "LINES", "NO_COLOR"}
+
+
+def _env_known(name):
+    """Variables the harness itself or the Go standard library / toolchain reads."""
+    return (name in _ENV_KNOWN or name.startswith("VERIF_") or name.startswith("GO") or name.startswith("CGO_")
+            or name.startswith("RAPID") or name.startswith("LC_") or name.startswith("NODE_"))
+
+
 def _build_h09(ctx, mode="trace"):
     """Comparison-trace build: library, REST layer and selected std packages with -d=libfuzzer, the js/wasm
     validation files compiled natively through an overlay, an exported router hook added to the api package."""
@@ -149,7 +161,9 @@ def execute(ctx):
             env.update({k: v.replace("{work}", work) for k, v in r.get("env", {}).items()})
             cmd = [bins[r.get("bin", "plain")], "-test.run", r["pattern"], "-test.count=1",
                    "-rapid.seed=%d" % (seed * 1000 + k + 1), "-rapid.nofailfile", "-rapid.shrinktime=12s",
-                   "-test.timeout=%ds" % tmo] + r.get("args", [])
+                   "-test.timeout=%ds" % tmo,
+                   # the testing package logs every os.Getenv / file access made while the tests run
+                   "-test.testlogfile=" + os.path.join(work, "testlog-%d-%d.txt" % (len(jobs), k))] + r.get("args", [])
             jobs.append(("%s#%d" % (r["name"], k), cmd, env, tmo + 60))
     failed = []
 
@@ -163,6 +177,32 @@ def execute(ctx):
             if rc != 0:
                 failed.append((name, rc, out))
     extra = {}
+    # Environment as an input: any environment variable consulted while the checks ran, other than the
+    # harness's own and the ones the standard library reads, is consulted by the code under test. The
+    # checks are then run once more with those variables set; their oracles are unchanged.
+    if not failed:
+        consulted = set()
+        for f in glob.glob(os.path.join(work, "testlog-*.txt")):
+            for line in open(f, errors="replace"):
+                if line.startswith("getenv "):
+                    consulted.add(line[7:].strip())
+        unknown = sorted(n for n in consulted if not _env_known(n))
+        extra["environment"] = {"variables_consulted_by_code_under_test": unknown}
+        if unknown:
+            def again(job):
+                name, cmd, env, tmo = job
+                env = dict(env)
+                for n in unknown:
+                    env[n] = "1"
+                env["VERIF_EXTRA_ENV"] = "\x1f".join("%s=1" % n for n in unknown)
+                cmd = [c for c in cmd if not c.startswith("-test.testlogfile=")]
+                rc, out = ctx["run"](cmd, moddir, env, tmo, os.path.join(work, "run.log"))
+                return name + "[env " + ",".join(unknown) + "=1]", rc, out
+            with ThreadPoolExecutor(max_workers=ctx["ncpu"]) as ex:
+                for name, rc, out in ex.map(again, jobs):
+                    if rc != 0:
+                        failed.append((name, rc, out))
+            extra["environment"]["rerun_with_variables_set"] = True
     if tier == "thorough" and not failed:
         fz = {}
         for f in spec.get("fuzz", []):
@@ -208,6 +248,12 @@ def replay(ctx):
         _prebuild(ctx)
     env = dict(ctx["env"])
     env["VERIF_REPLAY"] = ctx["replay"]
+    try:
+        for kv in _json.load(open(ctx["replay"])).get("env") or []:
+            k, _, v = kv.partition("=")
+            env[k] = v
+    except Exception:
+        pass
     kind = "plain" if "plain" in bins else sorted(bins)[0]
     rc, out = ctx["run"]([bins[kind], "-test.run", "^TestReplay$", "-test.count=1", "-test.v", "-test.timeout=600s"],
                          moddir, env, 700)
